@@ -1983,6 +1983,9 @@ func (query *Query) execAndPostProcess() (result any, err error) {
 }
 
 func (query *Query) Exec() (result []any, err error) {
+	// whole-table aggregates are memoised for one execution only: the next one
+	// reads the rows as they are then
+	clear(query.singletonExecutions)
 	rs, err := query.execAndPostProcess()
 	if err != nil {
 		return nil, err
